@@ -118,6 +118,10 @@ package crypto
 //@   prop C03
 //@   call jws.Sign #* requires [no-private-jwk-header] isNilIface(headers.JWK()) || (did(call (jwk.Key).Raw #1) && !isNilIface(ret(call (jwk.Key).Raw #1)))
 //@   call jws.Sign #* requires [key-from-caller-only] did(call jws.WithKey #1) || did(call jws.WithKey #2)
+// ... nor into a log record: the (caller-supplied) protected headers are never serialised or handed to the logger by the signing
+// functions - the audit record names the kid only (a private jwk header is refused, but only AFTER the audit record is written)
+//@   ensures [headers-are-not-logged] !didCallWith("json.Marshal", 0, any(headers)) && !didCallWith("(*logrus.Entry).WithField", 2, any(headers))
+//@        && !didCallWith("(*logrus.Entry).WithField", 2, any(protectedHeaders)) && !didCallWith("json.Marshal", 0, any(protectedHeaders))
 // ... nor into a JWT header: the same guard on the other signing entry point that takes caller-supplied headers.
 //@ func SignJWT
 //@   prop C03
